@@ -199,6 +199,13 @@ class SeqUpd:
         self.base, self.idx, self.val = base, idx, val
 
 
+class SeqIte:
+    __slots__ = ("c", "a", "b")
+
+    def __init__(self, c, a, b):
+        self.c, self.a, self.b = c, a, b
+
+
 class SeqOff:
     __slots__ = ("base", "off")
 
